@@ -332,7 +332,7 @@ impl Property for C07 {
     fn budget(&self, tier: Tier) -> Budget {
         match tier {
             Tier::Quick => Budget { release: 2_400_000, dbg: 800_000, workers: 8 },
-            Tier::Thorough => Budget { release: 32_000_000, dbg: 8_000_000, workers: 16 },
+            Tier::Thorough => Budget { release: 96_000_000, dbg: 24_000_000, workers: 16 },
         }
     }
     fn assumptions(&self) -> Vec<String> {
